@@ -10,6 +10,7 @@ import json
 import random
 
 NATIVE = (8, 16, 32, 64, 128)
+SYN = 96  # number of surface-syntax variants of a bit/bits attribute
 
 
 def storage_of(n):
@@ -178,44 +179,48 @@ def imports_of_type(t):
 
 
 def attr_str(f):
+    """surface syntax of the attribute; `syn` selects among spellings that mean the same thing:
+    bit(n) / bits(n..=n); `stride = s` / `stride: s`; the six orders of range, access and stride;
+    zero-padded decimal positions (010 is ten); a trailing comma"""
     syn = f["syn"]
     rs = f["ranges"]
+    pad = (syn // 24) % 2 == 1
+
+    def num(n):
+        return ("%03d" % n) if pad else ("%d" % n)
+
     single = len(rs) == 1 and not f["force_list"]
     if single:
         lo, hi = rs[0]
         if lo == hi and syn % 2 == 0:
-            head, rng = "bit", "%d" % lo
+            head, rng = "bit", num(lo)
         else:
-            head, rng = "bits", "%d..=%d" % (lo, hi)
+            head, rng = "bits", "%s..=%s" % (num(lo), num(hi))
     else:
         head = "bits"
         items = []
         for n, (lo, hi) in enumerate(rs):
             if lo == hi and (syn + n) % 2 == 0:
-                items.append("%d" % lo)
+                items.append(num(lo))
             else:
-                items.append("%d..=%d" % (lo, hi))
+                items.append("%s..=%s" % (num(lo), num(hi)))
         rng = "[" + ", ".join(items) + "]"
-    parts = [rng]
     acc = f["access"]
     stride = None
     if f["array"] and f["array"]["stride"] is not None:
         sep = "=" if (syn // 2) % 2 == 0 else ":"
-        stride = "stride %s %d" % (sep, f["array"]["stride"]) if sep == "=" else "stride: %d" % f["array"]["stride"]
-    order = (syn // 4) % 3
-    tail = []
-    if acc:
-        tail.append(acc)
-    if stride:
-        tail.append(stride)
-    if order == 1 and len(tail) == 2:
-        tail.reverse()
-    if order == 2 and acc:
-        # access before the range
-        parts = [acc] + parts + ([stride] if stride else [])
-    else:
-        parts = parts + tail
-    return "#[%s(%s)]" % (head, ", ".join(parts))
+        stride = "stride %s %s" % (sep, num(f["array"]["stride"])) if sep == "=" else "stride: %s" % num(f["array"]["stride"])
+    order = (syn // 4) % 6
+    perms = [("r", "a", "s"), ("r", "s", "a"), ("a", "r", "s"), ("s", "r", "a"), ("a", "s", "r"), ("s", "a", "r")]
+    parts = []
+    for k in perms[order]:
+        v = {"r": rng, "a": acc or None, "s": stride}[k]
+        if v:
+            parts.append(v)
+    body = ", ".join(parts)
+    if syn % 7 == 3:
+        body += ","
+    return "#[%s(%s)]" % (head, body)
 
 
 def field_decl(f, owner=""):
@@ -261,7 +266,7 @@ def render_struct(s):
         d = s["default"]
         form = d["form"]
         if form.startswith("const"):
-            cname = "DEF_%s" % s["name"].upper()
+            cname = d.get("cname") or "DEF_%s" % s["name"].upper()
             cty = "u%d" % s["storage"]
             pre.append("/// default constant")
             pre.append("pub const %s: %s = 0x%x;" % (cname, cty, d["value"]))
@@ -488,7 +493,7 @@ def fam_cont(tier, harvested, seed):
             fields = []
             for hi in his:
                 w = hi - lo + 1
-                syn = h("cont", S, lo, hi) % 12
+                syn = h("cont", S, lo, hi) % SYN
                 fields.append(field("f%d_%d" % (lo, hi), [(lo, hi)], T_uint(w, qualified=(syn % 5 == 0)), syn=syn))
                 if w == 1:
                     fields.append(field("b%d" % lo, [(lo, hi)], T_bool(), syn=syn + 1))
@@ -516,7 +521,7 @@ def fam_abase(tier, seed):
     dense = {1, 2, 3, 7, 9, 12, 24, 33, 48, 65, 127}
     for N in NON_NATIVE:
         # (a) overlapping probes: full width, top bit, bottom bit, top-aligned, middle
-        fs = [field("full", [(0, N - 1)], T_uint(N), syn=h("ab", N) % 12)]
+        fs = [field("full", [(0, N - 1)], T_uint(N), syn=h("ab", N) % SYN)]
         fs.append(field("top", [(N - 1, N - 1)], T_bool(), syn=N))
         fs.append(field("bot", [(0, 0)], T_uint(1), syn=N + 1))
         tw = min(N, 3 + N % 5)
@@ -551,7 +556,7 @@ def fam_abase(tier, seed):
                 fs = []
                 for hi in range(lo, N):
                     w = hi - lo + 1
-                    fs.append(field("f%d_%d" % (lo, hi), [(lo, hi)], T_uint(w), syn=h("abd", N, lo, hi) % 12))
+                    fs.append(field("f%d_%d" % (lo, hi), [(lo, hi)], T_uint(w), syn=h("abd", N, lo, hi) % SYN))
                 out.append(struct("abase_dense", "AX%d_%d" % (N, lo), N, fs, family="ABASE"))
     return out
 
@@ -578,7 +583,7 @@ def fam_zoo(tier, seed):
 
         def add(prefix, ranges, ty, array=None):
             n[0] += 1
-            fs.append(field("%s%d" % (prefix, n[0]), ranges, ty, array=array, syn=h("zoo", N, n[0]) % 12))
+            fs.append(field("%s%d" % (prefix, n[0]), ranges, ty, array=array, syn=h("zoo", N, n[0]) % SYN))
 
         for w in NATIVE:
             if w > N:
@@ -688,7 +693,7 @@ def fam_arr(tier, harvested, seed):
                         for t in arr_elem_types(w):
                             nm = "a%s_%d_%d" % (t["k"][0], stride, K)
                             st = None if (stride == w and (K + lo) % 2 == 0) else stride
-                            fs.append(field(nm, [(lo, lo + w - 1)], t, array={"k": K, "stride": st}, syn=h("arr", S, w, lo, stride, K) % 12))
+                            fs.append(field(nm, [(lo, lo + w - 1)], t, array={"k": K, "stride": st}, syn=h("arr", S, w, lo, stride, K) % SYN))
                 if fs:
                     # keep structs moderate in size
                     for c in range(0, len(fs), 40):
@@ -718,7 +723,7 @@ def fam_arr(tier, harvested, seed):
                         for t in arr_elem_types(w):
                             nm = "a%s_%d_%d" % (t["k"][0], stride, K)
                             st = None if (stride == w and K % 2 == 0) else stride
-                            fs.append(field(nm, [(lo, lo + w - 1)], t, array={"k": K, "stride": st}, syn=h("arrL", S, w, lo, stride, K) % 12))
+                            fs.append(field(nm, [(lo, lo + w - 1)], t, array={"k": K, "stride": st}, syn=h("arrL", S, w, lo, stride, K) % SYN))
                 if fs:
                     s = struct("arr_u%d" % S, "R%d_%d_%d" % (S, w, lo), S, fs, family="ARR")
                     add_const_witnesses(s, seed, maxn=1)
@@ -821,7 +826,7 @@ def fam_nc(tier, seed):
     for n, rl in enumerate(lists):
         w = sum(b - a + 1 for a, b in rl)
         t = T_int(8) if (w == 8 and n % 2 == 0) else T_uint(w)
-        fs.append(field("l%d" % n, rl, t, syn=h("nc8", n) % 12))
+        fs.append(field("l%d" % n, rl, t, syn=h("nc8", n) % SYN))
     for c in range(0, len(fs), 30):
         s = struct("nc_u8", "N8_%d" % (c // 30), 8, fs[c:c + 30], family="NC")
         add_const_witnesses(s, seed, maxn=1)
@@ -840,7 +845,7 @@ def fam_nc(tier, seed):
                     n += 1
                     continue
                 n += 1
-                fs.append(field("m%d" % n, rl, T_uint(w), array={"k": K, "stride": stride}, syn=h("ncarr", n) % 12))
+                fs.append(field("m%d" % n, rl, T_uint(w), array={"k": K, "stride": stride}, syn=h("ncarr", n) % SYN))
     for c in range(0, len(fs), 30):
         out.append(struct("nc_u8arr", "NA8_%d" % (c // 30), 8, fs[c:c + 30], family="NC"))
     if tier == "thorough":
@@ -855,7 +860,7 @@ def fam_nc(tier, seed):
                     continue
                 w = r1[1] - r1[0] + r2[1] - r2[0] + 2
                 t = T_int(w) if (is_native(w) and n % 2 == 0) else T_uint(w)
-                fs.append(field("l%d" % n, [r1, r2], t, syn=n % 12))
+                fs.append(field("l%d" % n, [r1, r2], t, syn=n % SYN))
                 n += 1
         for c in range(0, len(fs), 40):
             out.append(struct("nc_u16", "N16_%d" % (c // 40), 16, fs[c:c + 40], family="NC"))
@@ -877,7 +882,7 @@ def fam_nc(tier, seed):
             kmax = (S - 1 - top) // stride + 1
             if kmax >= 2:
                 arr = {"k": rnd.randrange(2, min(kmax, 6) + 1), "stride": stride}
-        fs_by_S[S].append(field("q%d" % n, rl, t, array=arr, syn=n % 12))
+        fs_by_S[S].append(field("q%d" % n, rl, t, array=arr, syn=n % SYN))
     for S, fs in fs_by_S.items():
         for c in range(0, len(fs), 25):
             s = struct("nc_rand", "NR%d_%d" % (S, c // 25), S, fs[c:c + 25], family="NC")
@@ -952,6 +957,13 @@ def fam_enum(tier, seed):
     out.append(e)
     e = mk_enum("en_cond", "Cnd12c", 12, [4095, 4095, 7], exh="conditional", cfgs={0: "off", 1: "on"})
     out.append(e)
+    # exactly 2^N variants written down, some compiled out: values without a live variant must give Err
+    out.append(mk_enum("en_cond", "CndFull1", 1, [0, 1], exh="conditional", cfgs={1: "off"}))
+    out.append(mk_enum("en_cond", "CndFull2", 2, [0, 1, 2, 3], exh="conditional", cfgs={1: "off", 3: "on"}))
+    out.append(mk_enum("en_cond", "CndFull2b", 2, [3, 2, 1, 0], exh="conditional", cfgs={0: "off", 1: "off", 2: "off"}))
+    out.append(mk_enum("en_cond", "CndFull3", 3, list(range(8)), exh="conditional", cfgs={2: "off", 5: "off", 6: "on"}))
+    out.append(mk_enum("en_cond", "CndFull8", 8, list(range(256)), exh="conditional", cfgs={7: "off", 255: "off", 0: "on"}))
+    out.append(mk_enum("en_cond", "CndFull2all", 2, [0, 1, 2, 3], exh="conditional", cfgs={0: "on", 1: "on", 2: "on", 3: "on"}))
     for e in out:
         add_enum_consts(e)
     return out
@@ -1015,13 +1027,13 @@ def fam_custom(tier, seed):
                 continue
             # place at low boundary, mid and top-aligned (overlaps are fine: no builder)
             for lo in sorted({0, (S - w) // 2, S - w}):
-                fs.append(field("e%s%d_%d" % (kind, w, lo), [(lo, lo + w - 1)], ety(kind, w), syn=h("cus", S, kind, w, lo) % 12))
+                fs.append(field("e%s%d_%d" % (kind, w, lo), [(lo, lo + w - 1)], ety(kind, w), syn=h("cus", S, kind, w, lo) % SYN))
                 n += 1
         for w, ns in nested.items():
             if w > S:
                 continue
             for lo in sorted({0, S - w}):
-                fs.append(field("n%d_%d" % (w, lo), [(lo, lo + w - 1)], T_nested(ns["name"], w), syn=h("cusn", S, w, lo) % 12))
+                fs.append(field("n%d_%d" % (w, lo), [(lo, lo + w - 1)], T_nested(ns["name"], w), syn=h("cusn", S, w, lo) % SYN))
         for c in range(0, len(fs), 30):
             out.append(struct(mod, "CU%d_%d" % (S, c // 30), S, fs[c:c + 30], family="CUSTOM"))
     # arrays and non-contiguous forms
@@ -1280,6 +1292,14 @@ def fam_misc(tier, seed):
         s = struct(mod, "OrderR%d" % base, base, [dict(f) for f in fs2], default={"form": "=", "value": h("ord", base) & ((1 << base) - 1)}, family="MISC")
         add_const_witnesses(s, seed, maxn=1)
         out.append(s)
+    # default given as a named constant whose identifier is also used by the expansion / by arbitrary_int
+    for i, cname in enumerate(["MAX", "MIN", "ZERO", "DEFAULT", "BITS", "MASK", "DEFAULT_RAW_VALUE", "CLEAR_MASK", "value", "Self_"]):
+        if not cname[0].isupper() and cname != "value":
+            continue
+        for base, val in ((32, 0x1234), (16, 100), (24, 0x567), (128, (1 << 100) + 5), (65, (1 << 64) + 3)):
+            form = "const=" if (i + base) % 2 == 0 else "const:"
+            out.append(struct("misc_c%d_%d" % (i, base), "K", base, [field("b0", [(0, 0)], T_bool()), field("top", [(base - 1, base - 1)], T_bool())],
+                              default={"form": form, "value": val, "cname": cname if cname != "value" else "VALUE"}, family="MISC"))
     # zero fields
     out.append(struct(mod, "Empty8n", 8, [], family="MISC"))
     out.append(struct(mod, "Empty8d", 8, [], default={"form": "=", "value": 7}, family="MISC"))
